@@ -53,7 +53,7 @@ func check(c *Ctx, r *Report) error {
 		"index expressions are in range and integer arithmetic does not overflow (Go would panic / wrap; nth returns the zero value, Z is unbounded): the tie is about executions that do not panic",
 		"slices are not aliased: a slice variable that is written by index was bound to a fresh value (make, literal, result of a call); a loop bound is not modified by the loop body (both are checked by the translator and refused otherwise)",
 		"Union2D/Union3D: operands are non-nil (the nil-stripping loop is translated with `x != nil` = true)",
-		"not translated (tied by the sampled correspondence of the property checks only): Center2D/CenterAndScale2D/LineOf/Multi/Orient (compositions), Interval.Overlap, sdf/screw.go, sdf/poly.go, sdf/bezier.go, sdf/mesh2.go",
+		"not translated (tied by the sampled correspondence of the property checks only): Center2D/CenterAndScale2D/LineOf/Multi/Orient (compositions), Interval.Overlap, the quadtree / clipping code of sdf/mesh2.go and sdf/box2.go, sdf/poly.go, sdf/bezier.go (sdf/screw.go: harness/threadgen)",
 		"an object is what its Evaluate and BoundingBox methods return; SetMin/SetMax/SetExtrude are translated as the new values of the fields they assign, which are the model's MinK/MaxK/extrusion arguments (UnionSDF2.SetMin: plus the blend flag)",
 	}
 	if nt != len(targets) {
